@@ -52,5 +52,7 @@ for tag, body in (("status", status), ("seeded", seeded), ("commits", commits)):
     if not pat.search(s):
         print("marker for", tag, "missing"); continue
     s = pat.sub(lambda m: m.group(1) + body + "\n" + m.group(2), s)
+total = sum(thms(pr["id"])[0] for pr in props)
+s = re.sub(r"All \d+ pinned property theorems", "All %d pinned property theorems" % total, s)
 open(p, "w").write(s)
-print("DESIGN.md blocks regenerated")
+print("DESIGN.md blocks regenerated (%d pinned theorems)" % total)
